@@ -1453,3 +1453,34 @@ CHECKS["C09"]["note"] += (
     "adding exactly those rows makes the two systems equal, so every other fault in an array model keeps a general "
     "signature (1 704 of the 1 864 quick array cases have a partly connected array)."
 )
+
+CHECKS["C06"]["text"] = (
+    "Two libraries: flat (top-level classes: component types, extends, modifications) and pkg (packages: a package-qualified "
+    "component type and extends, a qualified and an unqualified import in an enclosing package, a class nested two levels deep "
+    "that finds its component type in an enclosing package; every observed / edited class is nested). Per library all histories "
+    "within the bound -- quick: flat length 3, <= 2 deviations (edit or observation events), <= 2 edits; pkg length 3, <= 2 "
+    "deviations, <= 1 edit; thorough: flat length 4 / 3 deviations / 2 edits; pkg length 4 / 3 deviations / 1 edit and length 3 / 2 "
+    "/ 2; <= 2 observations -- over deepcopy of any tree, add/remove symbol/equation, remove class, replace class by a different "
+    "class of the same name (remove_class + add_class), add class, on a component-type class, a base class and a top model "
+    "(quick flat: the first two), graft class: add_class of the copy that find_class on ANOTHER live tree hands out, under its "
+    "own name, for every ordered pair of trees (flat: in the place of the receiving tree's class of that name -- a "
+    "component-type class and a class that looks up the edited classes, thorough also the base class and the top model; pkg: "
+    "into the importing package, where it shadows the import), and observation of every class of a live tree through "
+    "tree.flatten in place with ONE ComponentRef object per class name kept for the whole history / the SymPy backend / the XML "
+    "backend (quick pkg: in place only) -- checked, and kept in the history, so later copies and edits act on observed trees -- "
+    "on up to 3 trees (copies of copies included). After every copy or edit every tree is observed on a replay of its own -- "
+    "flatten of a deep copy, every route an earlier observation used, thorough: in place always -- and must equal a fresh parse "
+    "carrying exactly that tree's own edits (a graft: the class moved out of a second fresh parse carrying the source tree's "
+    "edits of that moment) observed through the same route. 2930 transitions quick (2349 flat + 581 pkg), 94217 thorough (predicted from the abstract run of the event alphabet; the thorough tier was last run end to end before the graft event was added)."
+)
+
+CHECKS["C06"]["note"] = (
+    "Two small libraries; edits through the public AST API only; the expected result uses the same AST API and the same route on "
+    "a never-copied fresh parse (computed before the exploration, for every edit list reachable within the bound), so defects of "
+    "add_/remove_ or of a backend's rendering themselves are not seen. Quick has no two-edit histories on the package library, no "
+    "edits of the flat library's top model and no backend observation events on the package library (thorough has). Observation "
+    "events observe all classes of a tree in a fixed order (final observations in the reverse order); single-class observation "
+    "events, transplanting a class within one tree or under a new name, removal / replacement of a whole package, Tree.extend "
+    "and encapsulated classes are not in the alphabet. State kept outside the trees is not reset between replayed histories of "
+    "a worker."
+)
